@@ -280,7 +280,7 @@ func (g *Gen) faultStmt() []Stmt {
 		return []Stmt{&CallS{E: &Call{F: call("coroutine.wrap", &Func{Body: []Stmt{&CallS{E: call("error", &Table{Items: []TItem{{Kind: 1, Name: "code", E: g.litInt()}}})}}})}}}
 	case 0:
 		g.use("fault-error-string")
-		return []Stmt{&CallS{E: call("error", str([]string{"boom", "bad", ""}[g.R.Intn(3)]))}}
+		return []Stmt{&CallS{E: call("error", str([]string{"boom", "bad", "", "50% off", "%d%s %x", "100%"}[g.R.Intn(6)]))}}
 	case 1:
 		g.use("fault-error-level0")
 		return []Stmt{&CallS{E: call("error", str("lvl0"), num(0))}}
